@@ -14,7 +14,7 @@ import (
 
 func TestC06(t *testing.T) {
 	ev := vlib.NewEvidence("C06", "exploration",
-		"a valid session (2 hosts, 2 clients, 2 wallets) is advanced to a random point; then one refused request (bit-flipped signature, other key, malformed signature, replay of an accepted request, nonce older than the freshness window) is injected against each of the 7 signed endpoints (keep-alives also signed in the deprecated {peers, block_number} form) naming a live victim identity with a nonce far above the victim's; the digest of all RPC-reachable pool state and of the calls seen by fake hosts must be unchanged, and the victim's next correctly signed request with a smaller-but-fresh nonce must pass verification; non-trivial = refused request injected into a session holding balances/peers; distinct = (endpoint, refusal kind, session point)")
+		"a valid session (2 hosts, 2 clients, 2 wallets) is advanced to a random point; then one refused request (bit-flipped signature, other key, malformed signature, replay of an accepted request, nonce older than the freshness window) is injected against each of the 7 signed endpoints (keep-alives also signed in the deprecated {peers, block_number} form) naming a live victim identity with a nonce far above the victim's; the digest of all RPC-reachable pool state and of the calls seen by fake hosts must be unchanged, and the victim's next correctly signed request with a smaller-but-fresh nonce must pass verification; non-trivial = refused request injected into a session holding balances/peers; distinct = (endpoint, refusal kind, session point); (faults) replays of requests that were in flight together")
 	kinds := []string{"bitflip", "wrong-key", "malformed", "replay", "too-old", "other-registered-identity-same-connection", "replay-under-other-spelling", "replay-while-nonce-store-faults"}
 	points := vlib.Scale(6, 60)
 	for _, driver := range vlib.Drivers() {
